@@ -387,3 +387,34 @@ Theorem C09_end_of_range_not_dereferenced :
   show_args_b [] [spec_str 1] (payload (run 0 inp' false [spec_str 1])) = [40; 34; 34; 41].
 Proof. exact end_of_range_not_dereferenced. Qed.
 Print Assumptions C09_end_of_range_not_dereferenced.
+
+(* ---------------------------------------------------------------- the writer's spec list is the readers' spec list *)
+(* Model of the per-function spec list (utils/filter.c add_arg_spec / update_trigger / update_filter's "ignore auto-args
+   if it already has argspec"): writer_entry = libmcount's order (explicit -A, explicit -R, automatic args, automatic
+   retval), reader_entry = open_data_file's reconstruction from the info file.  For EVERY combination of explicit and
+   automatic specs both are the same list ... *)
+Theorem C09_reader_spec_list_eq_writer : forall o, reader_entry o = writer_entry o.
+Proof. exact reader_entry_eq_writer. Qed.
+Print Assumptions C09_reader_spec_list_eq_writer.
+
+(* ... in which an explicit spec hides the automatic specs of its direction as a whole *)
+Theorem C09_explicit_hides_auto : forall o,
+  o_ea o <> [] -> o_er o <> [] ->
+  e_specs (writer_entry o) = fold_left add_arg_spec (o_er o) (fold_left add_arg_spec (o_ea o) []).
+Proof. exact explicit_hides_auto. Qed.
+Print Assumptions C09_explicit_hides_auto.
+
+(* the order is load-bearing: with the automatic specs applied first (`record -a -A 'strtol@arg3/i32'`) the reader
+   expects three argument values where one was written and cannot frame the payload *)
+Theorem C09_reader_auto_first_refuted :
+  e_specs (writer_entry strtol_opts) = [Sp 3 FSint 4 TIndex 0; Sp 0 FAuto 8 TIndex 0] /\
+  e_specs (reader_entry strtol_opts) = e_specs (writer_entry strtol_opts) /\
+  e_specs (reader_entry_auto_first strtol_opts) =
+    [Sp 1 FStr 8 TIndex 0; Sp 2 FPtr 8 TIndex 0; Sp 3 FSint 4 TIndex 0; Sp 0 FAuto 8 TIndex 0] /\
+  let inp := {| regs := [4096; 0; 10; 0; 0; 0]; xmm := []; stk := []; rets := []; strs := [(4096, [49; 50])]; wrds := [] |} in
+  payload (run 0 inp false (e_specs (writer_entry strtol_opts))) = Some [10; 0; 0; 0] /\
+  read_args false (e_specs (writer_entry strtol_opts)) ([10; 0; 0; 0; 0; 0; 0; 0] ++ next_rec) = Some ([10; 0; 0; 0], next_rec) /\
+  read_args false (e_specs (reader_entry_auto_first strtol_opts)) ([10; 0; 0; 0; 0; 0; 0; 0] ++ next_rec) <>
+    Some ([10; 0; 0; 0], next_rec).
+Proof. exact auto_first_reader_refuted. Qed.
+Print Assumptions C09_reader_auto_first_refuted.
